@@ -5,6 +5,10 @@ import json, subprocess
 HOOK_COMMITS = subprocess.run(["git", "-C", "/repo", "log", "--format=%h %s", "--grep=^hook:"], capture_output=True, text=True).stdout.strip().splitlines()
 
 CLAIMED = {
+    "C02": ("§4 C02", "Seeded exploration with Byzantine scripted responders: every item surfaced by the six read APIs is independently re-verified (hash / key / salt / signature / target) and authentic replicas must still surface; catalogue of 22 forgeries, any subset of responders, any arrival order.",
+            "deterministic simulation with Byzantine-peer fault injection, independent re-verification oracle"),
+    "C16": ("§4 C16", "Seeded exploration of arrival orders of 1..8 authentic replicas (gaps, duplicates, equal-seq ties) for the async API and, through a sequenced helper thread, the sync API; expected value computed from the trace of delivered replies.",
+            "deterministic simulation, seeded delivery-order sampling vs. fold model"),
     "C03": ("§4 C03", "Seeded exploration of request histories against one real server, checked in lock-step with a reference BEP5/BEP44 storage model (reply class per request, store contents after every consumed datagram). Samples, does not enumerate: a clean batch is evidence, not proof.",
             "deterministic simulation, seeded history sampling vs. reference model (lock-step over the consumed-datagram order)"),
     "C04": ("§4 C04", "Seeded exploration of mutable put/get histories (seq 0..5, cas none/match/mismatch, 2 keys x 2 salts, capacity 1/2/default) with duplication/reordering/loss against a BEP44 state machine; stored seq monotonicity follows from store equality after every step.",
@@ -19,7 +23,7 @@ NOT_APPLICABLE = {
 }
 
 # properties designed in DESIGN.md whose checks are not built yet are listed as not claimed (reason says so)
-PENDING = ["C01", "C02", "C05", "C06", "C07", "C08", "C09", "C11", "C12", "C13", "C14", "C16", "C17", "C18", "C20"]
+PENDING = ["C01", "C05", "C06", "C07", "C08", "C09", "C11", "C12", "C13", "C14", "C17", "C18", "C20"]
 
 checks = []
 for pid, (ref, text, tech) in sorted(CLAIMED.items()):
